@@ -487,6 +487,49 @@ def gen_numeric_cases(L, rng, n_fo, n_kep):
     return cases
 
 
+def nbody_c_vs_python(ctx, L, drv, ctab):
+    """k-th planet (k = 1..4): Python's default primary is reb_simulation_com of what is already there; the same request
+    through the C front end with that centre of mass must give the same particle (and through reb_simulation_add_fmt)."""
+    rb = L.rebound
+    L.clib.reb_simulation_com.restype = rb.Particle
+    rng = ctx.rng
+    cs, pys = [], []
+    for i in range(ctx.scale(96, 960)):
+        k = 1 + i % 4
+        sim = rb.Simulation()
+        sim.G = rng.choice([1.0, 39.47841760435743]); sim.t = rng.choice([0.0, 1.5])
+        sim.add(m=rng.uniform(0.5, 2))
+        for j in range(k - 1):
+            sim.add(m=10 ** rng.uniform(-3.5, -2.3), a=1.0 + 0.6 * j, e=rng.uniform(0, 0.05), f=rng.uniform(0, 6))
+        cm = L.clib.reb_simulation_com(ctypes.byref(sim))
+        size = ("a", "P")[(i // 4) % 2]
+        an = ("f", "M", "E", "l", "theta", "T")[(i // 8) % 6]
+        vals = {"m": rng.choice([0.0, 1e-4]), size: rng.uniform(3, 8), "e": rng.uniform(0, 0.5), "inc": rng.uniform(0, 3),
+                "Omega": rng.uniform(0, 6), rng.choice(["omega", "pomega"]): rng.uniform(0, 6), an: rng.uniform(0.2, 6)}
+        try:
+            p = rb.Particle(simulation=sim, **vals)
+            pys.append(("P", p.m, p.r, p.hash.value, p.x, p.y, p.z, p.vx, p.vy, p.vz))
+        except ValueError as ex:
+            pys.append(("E", [cd for pat, cd in PY_ERR if str(ex).startswith(pat)][0]))
+        names = [n for n in OPT if n in vals or n == "primary"]
+        cs.append({"G": sim.G, "t": sim.t, "prim": [cm.m, cm.x, cm.y, cm.z, cm.vx, cm.vy, cm.vz], "nsim": 1, "names": names, "vals": vals, "k": k})
+    r = subprocess.run([drv], input="\n".join(case_line(c) for c in cs) + "\n", capture_output=True, text=True, timeout=600)
+    lines = r.stdout.strip().split("\n")
+    if r.returncode != 0 or len(lines) != len(cs):
+        ctx.obligation("c-driver ran (k-th planet)", False, r.stderr[-300:])
+        return
+    for c, l, po in zip(cs, lines, pys):
+        ctx.evaluations += 1
+        co = parse_driver_line(l, ctab)
+        conv = "P" in c["names"] or "T" in c["names"]
+        ok = close_outcome(co, po) if conv else same_outcome(co, po)
+        if not ok:
+            ctx.violation("nbody:c-vs-python", {"kind": "nbody-c", "k": c["k"], "names": c["names"],
+                          "vals": {a: float(b).hex() for a, b in c["vals"].items()}, "primary(com)": c["prim"], "c": str(co), "python": str(po)}, True,
+                          "k-th planet: Python (default primary) and C (centre of mass as primary) build different particles")
+            break
+
+
 # ----------------------------------------------------------------------------- run
 def run(ctx):
     libdir = ctx.lib()
@@ -636,6 +679,7 @@ def run(ctx):
     ncases = gen_numeric_cases(L, rng, ctx.scale(400, 4000), ctx.scale(400, 4000))
     ncases += c11_mirror.gen_cases(L, rng, ctx.scale(400, 4000), ctx.scale(300, 3000))
     ncases += c11_mirror.gen_sim_cases(L, rng, ctx.scale(60, 600))
+    ncases += c11_mirror.gen_flow_sim_cases(L, rng, ctx.scale(192, 1920))
     # the value flow of both front ends (Flow.v at binary64 + model of reb_particle_from_orbit_err) against what
     # reb_particle_from_fmt / rebound.Particle returned for the accepted classical requests of part (a)
     nflow = 0
@@ -691,6 +735,7 @@ def run(ctx):
     # ---------------- (c) searcher
     ctx.log("numerics done")
     S.search(ctx, L)
+    nbody_c_vs_python(ctx, L, drv, ctab)
 
     ctx.rule = ("parser: all subsets of <=3 of the 27 optional arguments + random subsets (sizes 0..27), with/without simulation, "
                 "empty simulation, NaN values; distinct by (c_decide, py_decide, outcome). numerics: random/grid e in [0,1)u(1,50], "
